@@ -417,6 +417,9 @@ theorem FixedLine.build (w : Nat) (lead : Txt) (S' : List Txt) (last : Txt) (k :
     exact lastSolid_append hne hl
   len72 := by simpa using h72
 
+theorem cleanField_ne_nil {w : Nat} (hw : 0 < w) {f : Txt} (h : CleanField w f) : f ≠ [] := by
+  intro e; have := h.1.1; rw [e] at this; simp at this; omega
+
 theorem isCont_G (m : Mode) (r : Txt) : isCont m ('G' :: r) = false := by
   cases m <;> simp [isCont, Mode.conchar]
 
